@@ -469,7 +469,11 @@ class MergeSortView(Table):
         if presorted:
             self.tables = tables
         else:
-            self.tables = [sort(t, key=key, reverse=reverse,
+            # sort each table as it appears in the merged table (the fields of
+            # the output header, `missing` where the table has no such field),
+            # so that the per-table sorts and the merge see the same key values
+            self.tables = [sort(_MergeSortInput(t, tables, header, missing),
+                                key=key, reverse=reverse,
                                 buffersize=buffersize, tempdir=tempdir,
                                 cache=cache)
                            for t in tables]
@@ -480,6 +484,66 @@ class MergeSortView(Table):
     def __iter__(self):
         return itermergesort(self.tables, self.key, self.header, self.missing,
                              self.reverse)
+
+
+def _mergedheader(src_hdrs):
+    # determine output fields by gathering all fields found in the sources
+    outhdr = list()
+    for hdr in src_hdrs:
+        for f in list(map(text_type, hdr)):
+            if f not in outhdr:
+                # add any new fields as we find them
+                outhdr.append(f)
+    return outhdr
+
+
+def _standardisedata(it, hdr, ofs, missing):
+    flds = list(map(text_type, hdr))
+    # now construct and yield the data rows
+    for _row in it:
+        try:
+            # should be quickest to do this way
+            yield tuple(_row[flds.index(fo)] if fo in flds else missing
+                        for fo in ofs)
+        except IndexError:
+            # handle short rows
+            outrow = [missing] * len(ofs)
+            for i, fi in enumerate(flds):
+                try:
+                    outrow[ofs.index(fi)] = _row[i]
+                except IndexError:
+                    pass  # be relaxed about short rows
+            yield tuple(outrow)
+
+
+class _MergeSortInput(Table):
+    """One of the input tables of mergesort with the fields of the merged
+    table."""
+
+    def __init__(self, table, tables, header, missing):
+        self.table = table
+        self.tables = tables
+        self.header = header
+        self.missing = missing
+
+    def __iter__(self):
+        outhdr = self.header
+        if outhdr is None:
+            src_hdrs = []
+            for t in self.tables:
+                try:
+                    src_hdrs.append(next(iter(t)))
+                except StopIteration:
+                    src_hdrs.append([])
+            outhdr = _mergedheader(src_hdrs)
+        it = iter(self.table)
+        try:
+            hdr = next(it)
+        except StopIteration:
+            hdr = []
+        yield tuple(outhdr)
+        for row in _standardisedata(it, hdr, outhdr, self.missing):
+            yield row
 
 
 def itermergesort(sources, key, header, missing, reverse):
@@ -495,38 +559,14 @@ def itermergesort(sources, key, header, missing, reverse):
             src_hdrs.append([])
 
     if header is None:
-        # determine output fields by gathering all fields found in the sources
-        outhdr = list()
-        for hdr in src_hdrs:
-            for f in list(map(text_type, hdr)):
-                if f not in outhdr:
-                    # add any new fields as we find them
-                    outhdr.append(f)
+        outhdr = _mergedheader(src_hdrs)
     else:
         # predetermined output fields
         outhdr = header
     yield tuple(outhdr)
 
-    def _standardisedata(it, hdr, ofs):
-        flds = list(map(text_type, hdr))
-        # now construct and yield the data rows
-        for _row in it:
-            try:
-                # should be quickest to do this way
-                yield tuple(_row[flds.index(fo)] if fo in flds else missing
-                            for fo in ofs)
-            except IndexError:
-                # handle short rows
-                outrow = [missing] * len(ofs)
-                for i, fi in enumerate(flds):
-                    try:
-                        outrow[ofs.index(fi)] = _row[i]
-                    except IndexError:
-                        pass  # be relaxed about short rows
-                yield tuple(outrow)
-
     # wrap all iterators to standardise fields
-    sits = [_standardisedata(it, hdr, outhdr)
+    sits = [_standardisedata(it, hdr, outhdr, missing)
             for hdr, it in zip(src_hdrs, its)]
 
     # now determine key function
